@@ -134,8 +134,7 @@ func (s *Server) cmdSetHook(msg *Message) (
 		counter:   &s.statsTotalMsgsSent,
 	}
 	if expiresSet {
-		hook.expires =
-			time.Now().Add(time.Duration(expires * float64(time.Second)))
+		hook.expires = time.Unix(0, deadlineAfter(time.Now(), expires))
 	}
 	if !channel {
 		hook.db = s.qdb
